@@ -14,6 +14,9 @@ THEOREMS = [
     "TornadoModel.C06.cache_sound_run",
     "TornadoModel.C06.refines_multimap",
     "TornadoModel.C06.present_deletable",
+    "TornadoModel.C06.reported_deletable",
+    "TornadoModel.C06.present_deletable_run",
+    "TornadoModel.C06.present_deletable_prefix_refuted",
     "TornadoModel.C06.deleted_absent",
     "TornadoModel.C06.copy_equal",
     "TornadoModel.C06.parse_str_roundtrip",
@@ -33,14 +36,18 @@ RULE = ("op sequences over a small name/value alphabet with case variants, valid
         "non-trivial = at least one name holds >=2 values or a cached read precedes a mutation; distinct by canonical JSON")
 EXHAUSTIVE = {"quick": False, "thorough": False}
 CLAUSE_CAVEATS = [
-    "present_deletable is immediate from the model's definition of delete after the fix (it does not need reachability); the substance is model fidelity, established by the tie and the revert-fix mutant",
 ]
 CLAUSES = {
     "behaves like an insertion-ordered multimap keyed by case-insensitive name":
         "refines_multimap + normalize_eq_iff_lower_eq + normalize_case_variants (all names, not only letters-and-hyphens; "
         "closed form of the stored key: normalize_eq_headerCase)",
     "reading a name returns its values joined by commas": "refines_multimap (Spec.get) + cache_sound_run",
-    "any name reported present can be deleted": "present_deletable",
+    "any name reported present can be deleted":
+        "reported_deletable (reachable states; presence reported by ANY read API: in / iteration / get_all / get_list / "
+        "h[n] through the cache; every spelling; afterwards no API reports it) + present_deletable_run (same on run outputs) "
+        "+ present_deletable / deleted_absent (the membership-only special case, immediate from the fixed __delitem__) "
+        "+ present_deletable_prefix_refuted (the statement is false for the pre-fix __delitem__); the oracle also applies "
+        "the clause directly to HTTPHeaders at probed points of every history (_present_probes)",
     "copies are independent": "copy_equal (same entries) + tie only (aliasing between the two objects)",
     "serializing and parsing back yields an equal map": "parse_str_roundtrip",
 }
@@ -277,12 +284,93 @@ def _apply(h, op):
         return _exc(e)
 
 
+def _replay(ops):
+    from tornado.httputil import HTTPHeaders
+    h = HTTPHeaders()
+    for op in ops:
+        _apply(h, op)
+    return h
+
+
+def _reports(h, name, with_getitem):
+    """which public read APIs report `name` as present (h[name] last: it fills the combined-value cache)"""
+    r = []
+    try:
+        if name in h:
+            r.append("in")
+        if name in list(h):
+            r.append("iter")
+        if any(k == name for k, _ in h.get_all()):
+            r.append("get_all")
+        if h.get_list(name):
+            r.append("get_list")
+        if with_getitem:
+            try:
+                h[name]
+                r.append("getitem")
+            except KeyError:
+                pass
+    except Exception as e:
+        r.append(_exc(e))
+    return r
+
+
+def _cuts(ops):
+    """history prefixes at which presence is probed: every prefix of a short history, else the end of the history,
+    the points just before each trailing read, and evenly spaced ones"""
+    n = len(ops)
+    if n <= 10:
+        return list(range(1, n + 1))
+    cuts = {n}
+    for i in range(n - 1, 0, -1):          # strip trailing reads: the state before a `get` has no cache entry yet
+        if ops[i][0] in ("add", "set", "del", "parseLine"):
+            cuts.add(i + 1)
+            break
+    cuts.update(range(n // 6, n, max(1, n // 6)))
+    return sorted(c for c in cuts if c >= 1)
+
+
+def _present_probes(ops):
+    """The clause "any name reported present can be deleted", applied DIRECTLY to the implementation (no model, no
+    multimap): at several points of the history, for every name in play, replay the history on a fresh object,
+    ask every read API whether the name is present, delete it (under the same and under another spelling), and ask
+    again.  Returns only the offending probes (normally [])."""
+    bad = []
+    for cut in _cuts(ops):
+        prefix = ops[:cut]
+        cands = {}
+        for o in prefix:
+            if len(o) > 1 and o[0] != "parseLine" and isinstance(o[1], str):
+                cands.setdefault(o[1].lower(), o[1])
+        try:
+            for k in list(_replay(prefix)):
+                cands.setdefault("=" + k, k)         # the displayed spelling as well
+        except Exception:
+            pass
+        for name in list(cands.values())[:8]:
+            for with_getitem in (False, True):
+                for spelling in (name, name.swapcase()):
+                    if with_getitem and spelling != name:
+                        continue
+                    h = _replay(prefix)
+                    rep = _reports(h, name, with_getitem)
+                    if not rep:
+                        continue
+                    d = _apply(h, ["del", spelling])
+                    after = _reports(h, name, True) if d == "U" else []
+                    if d != "U" or after:
+                        bad.append([cut, name, rep, spelling, d, after])
+            if len(bad) >= 3:
+                return bad
+    return bad
+
+
 def run_impl(case):
     from tornado.httputil import HTTPHeaders
     if case["kind"] == "ops":
         h = HTTPHeaders()
         outs = [_apply(h, op) for op in case["ops"]]
-        extra = {}
+        extra = {"present": _present_probes(case["ops"])}
         pairs = [list(p) for p in h.get_all()]
         if all(TOKEN.match(k) and FIELD_VALUE.match(v) for k, v in pairs):
             try:
@@ -396,7 +484,12 @@ def spec_violation(case, impl, replies):
         for i, (op, w, g) in enumerate(zip(case["ops"], want, got)):
             if _ci(op[0], w) != _ci(op[0], g):
                 return "op %d %r: multimap says %r, HTTPHeaders gave %r" % (i, op, w, g)
-        # present => deletable is part of the spec outputs (Spec.del succeeds iff contains)
+        # present => deletable, directly on the implementation (every read API, every probed point of the history);
+        # it is ALSO part of the multimap outputs above (Spec.del succeeds iff Spec.contains)
+        for cut, name, rep, spelling, d, after in impl.get("present") or []:
+            if d != "U":
+                return "present-deletable: after %d ops %r is reported present by %s but del h[%r] gave %s" % (cut, name, "/".join(rep), spelling, d)
+            return "present-deletable: after %d ops and del h[%r], %r is still reported present by %s" % (cut, spelling, name, "/".join(after))
         if impl.get("roundtrip") not in (None, True):
             return "parse(str(h)) != h: %r" % (impl["roundtrip"],)
         return None
@@ -448,6 +541,8 @@ def stats(case, impl):
 
 def signature(case, impl, why):
     if case["kind"] == "ops":
+        if why.startswith("present-deletable"):
+            return "ops/present-deletable/" + ("not-deletable" if " gave " in why else "still-present")
         m = re.match(r"op \d+ \['(\w+)'", why)
         return "ops/%s/%s" % (m.group(1) if m else "roundtrip", "uncaught" if "Uncaught" in why else "wrong-output")
     return case["kind"] + "/" + re.sub(r"[^a-zA-Z]+", "-", why)[:40]
